@@ -327,7 +327,12 @@ def main():
                 conf_bad += 1
                 print("CONFORMANCE-MISMATCH cover %s@%s native=%s" % (cid, r["harness"], json.dumps(rr)[:300]))
     replayed += conf_ok + conf_bad
-    missing_covers = [c for c in spec.get("covers", []) if covers.get(c, 0) == 0]
+    # a cover point whose only witnesses have undecided feasibility (solver time-out under load) is
+    # inconclusive, not vacuous: it is reported, but does not make the check fail
+    missing_covers = [c for c in spec.get("covers", []) if covers.get(c, 0) == 0 and covers.get(c + " (feasibility unknown)", 0) == 0]
+    for c in spec.get("covers", []):
+        if covers.get(c, 0) == 0 and covers.get(c + " (feasibility unknown)", 0) > 0:
+            print("INCONCLUSIVE cover %s: feasibility of every witness undecided" % c)
 
     for (hn, ob), k in known_hits.items():
         print("KNOWN-FINDING: property=%s obligation=%s %s" % (prop, ob, k["what"]))
